@@ -18,7 +18,7 @@ ID = "C10"
 LEVEL = "exploration"
 TIERS = {
   "quick": {"runs": 128, "chunk": 8, "budget_s": 480, "timeout_s": 300},
-  "thorough": {"runs": 2400, "chunk": 12, "budget_s": 3000, "timeout_s": 300},
+  "thorough": {"runs": 512, "chunk": 8, "budget_s": 1500, "timeout_s": 300},
 }
 RULE = ("one evaluation = one compared step of the target world between the batched-field model and the unbatched reference model; the "
         "field list is enumerated from the Model/Option/Statistic dataclasses (float-typed '*' fields, render-only and quaternion fields "
@@ -60,8 +60,17 @@ def gen(seed, idx, tier):
   for k in ("tendon_fixed", "tendon_spatial", "eq_connect", "eq_weld", "eq_joint", "frictionloss", "pairs", "margin", "gravcomp", "act_dyn"):
     if r.random() < 0.45:
       feats[k] = True
-  spec, rejected = scen.pick_model(seed, idx, features=feats, curated_p=0.1, size="s")
   fl = field_list()
+  # the model is made rich in the family of the field this run is about (first, cyclically chosen field), so that the field is live
+  lead = fl[(idx * 3) % len(fl)][1]
+  fam = {"actuator_": {"act": True, "act_dyn": True, "act_limits": True}, "tendon_": {"tendon_fixed": True, "tendon_spatial": True, "limits": True, "frictionloss": True},
+         "eq_": {"eq_connect": True, "eq_weld": True, "eq_joint": True, "eq_inactive": False}, "pair_": {"pairs": True, "dense_contacts": True, "plane": True},
+         "geom_": {"dense_contacts": True, "plane": True, "free": True}, "jnt_": {"limits": True, "springs": True, "margin": True},
+         "dof_": {"frictionloss": True, "limits": True}, "body_": {"free": True, "gravcomp": True}}
+  for pre, ff in fam.items():
+    if lead.startswith(pre):
+      feats.update(ff)
+  spec, rejected = scen.pick_model(seed, idx, features=feats, curated_p=0.0 if any(lead.startswith(p_) for p_ in fam) else 0.1, size="s")
   nf = int(r.choice([1, 1, 2, 3]))
   # cycle deterministically through the field list so that every field is visited regularly, plus random companions
   fields = [fl[(idx * 3 + j) % len(fl)] for j in range(1)] + [fl[int(r.integers(0, len(fl)))] for _ in range(nf - 1)]
